@@ -195,6 +195,21 @@ class ModelsOps:
             if type(r).__name__ == "DictV":
                 hit = any(self.keys_equal(k, l, node) for k, _ in r.items)
                 return BoolV(hit if op is ast.In else not hit)
+            if isinstance(r, (ClsV, ObjV)):
+                fi_ = self.dunder_of(r, "__contains__")
+                if fi_ is not None:
+                    res_ = self.truth(I.call_function(fi_, [r, l], {}, node), node)
+                    return BoolV(res_ if op is ast.In else not res_)
+            if isinstance(r, GlobalMapV) and isinstance(l, TupleV) and not getattr(r, "registry", False) \
+                    and not getattr(r, "convtable", False):
+                # operation cache: Engine A follows the miss (hit == recomputation, rule R17.1) unless hits are modelled
+                self.st.effects.append(("mapread", r, l, self.where(node)))
+                present = False
+                if self.cache_hits:
+                    present = bool(I.choose(2, f"cache@{getattr(node, 'lineno', '?')}", ["miss", "hit"]))
+                    if present:
+                        r.__dict__.setdefault("hit_keys", []).append(l)
+                return BoolV(present if op is ast.In else not present)
             if isinstance(r, (ListV, GlobalMapV, OpaqueV, TupleV)) and not (isinstance(r, TupleV)):
                 res = bool(I.choose(2, f"in@{getattr(node, 'lineno', '?')}", ["absent", "present"]))
                 self.st.effects.append(("contains", r, l, res, self.where(node)))
@@ -427,6 +442,10 @@ class ModelsOps:
 
     def binop(self, op, l, r, node):
         I = self.I
+        if isinstance(l, CmpV):         # arithmetic on a comparison result: its truth value as 0 / 1
+            l = BoolV(self.truth(l, node))
+        if isinstance(r, CmpV):
+            r = BoolV(self.truth(r, node))
         if isinstance(l, BoolV):
             l = self.num_const(int(l.val), "bool")
         if isinstance(r, BoolV):
@@ -663,6 +682,7 @@ class ModelsOps:
                 raise AbsRaise(ex)
         key = ("parsed", id(s))
         c = self.I.choose(2, f"{how}(str)@{getattr(node, 'lineno', '?')}", ["ok", "ValueError"])
+        self.st.effects.append(("parsed", how, c == 0, self.where(node)))
         if c == 1:
             ex = ExcV("ValueError", (), node, self.where(node))
             ex.tag = "parse"
